@@ -173,6 +173,8 @@ class Session:
         self.commit_hooks = []  # callables(session, event, db) run at each commit (crash snapshots)
         self.gate_hooks = []  # callables(session, gate_name) run before each scheduling point
         self.report_hooks = []  # callables(session, tag, msg) run at each reporter message
+        self.watch_hooks = []  # callables(session, phase_index, db) run when a watch phase begins
+        self.watch_points: list[dict] = []  # state/disk/rc each time the director is watching
         self.ncommit = 0
         self.phase = 0
         self.job_labels: dict[int, str] = {}
@@ -577,7 +579,7 @@ async def _declaration(h, step) -> _Decl:
 
 
 def out_content(label: str, path: str, reads: list[str]) -> str:
-    h8 = hashlib.sha256("\x00".join(reads).encode()).hexdigest()[:8]
+    h8 = hashlib.sha256("\x00".join(sorted(set(reads))).encode()).hexdigest()[:8]
     return f"{label}>{path}<{h8}\n"
 
 
@@ -590,6 +592,14 @@ async def _run_ops(ses: Session, h, job, label, cmd, ops, env, reads):
             await h.declare_static(job, [], list(op[1]), [])
         elif kind == "tree":
             await h.declare_static(job, sorted(op[1]), [], [])
+        elif kind == "sdecl":
+            # one static() call mixing trees, files and patterns (with their current matches)
+            pats = []
+            for pattern in op[3] if len(op) > 3 else []:
+                ng = NamedGlob(pattern)
+                ng.glob()
+                pats.append((pattern, [str(p) for p in ng.files()]))
+            await h.declare_static(job, sorted(op[1]), list(op[2]), pats)
         elif kind == "sglob":
             # static() with a pattern: matches (files) declared static + pattern recorded
             pattern = op[1]
@@ -676,7 +686,7 @@ async def _run_ops(ses: Session, h, job, label, cmd, ops, env, reads):
         elif kind == "write_declared":
             info = ses.launch_info[job]
             for p in sorted(str(x) for x in info.out):
-                text = out_content(cmd, p, reads)
+                text = out_content(cmd, p, [] if len(op) > 1 and op[1] == "const" else reads)
                 world.write(p, text)
                 ses.emit("write", job=job, step=label, path=p, content=text, clock=_logical_ns())
         elif kind == "getenv":
@@ -686,6 +696,9 @@ async def _run_ops(ses: Session, h, job, label, cmd, ops, env, reads):
             raise ScriptAbort(int(op[1]), "exit")
         elif kind == "if_exists":
             branch = op[2] if world.read(op[1]) is not None else (op[3] if len(op) > 3 else [])
+            await _run_ops(ses, h, job, label, cmd, branch, env, reads)
+        elif kind == "if_version":
+            branch = op[3] if version_of(world.read(op[1])) == op[2] else (op[4] if len(op) > 4 else [])
             await _run_ops(ses, h, job, label, cmd, branch, env, reads)
         elif kind == "if_env":
             branch = op[3] if env.get(op[1]) == op[2] else (op[4] if len(op) > 4 else [])
@@ -775,6 +788,7 @@ class RunResult:
         self.choices: list[str] = []
         self.errors: list[str] = []
         self.phase_rcs: list[int] = []
+        self.watch_points: list[dict] = []
 
 
 def make_config(cfg: dict, do_watch: bool) -> ServeConfig:
@@ -809,6 +823,7 @@ def run_serve(
     commit_hooks=None,
     gate_hooks=None,
     report_hooks=None,
+    watch_hooks=None,
     log_state: bool = True,
     tag: str = "",
     fresh: bool = False,
@@ -830,6 +845,8 @@ def run_serve(
         ses.gate_hooks.extend(gate_hooks)
     if report_hooks:
         ses.report_hooks.extend(report_hooks)
+    if watch_hooks:
+        ses.watch_hooks.extend(watch_hooks)
     old_cwd = os.getcwd()
     old_env = dict(os.environ)
     os.chdir(world.root)
@@ -920,6 +937,7 @@ def run_serve(
     res.choices = list(ctl.choices) if ctl else []
     res.errors = ses.errors
     res.phase_rcs = [e["rc"] for e in ses.trace if e["ev"] == "phase_end"]
+    res.watch_points = ses.watch_points
     return res
 
 
@@ -962,14 +980,27 @@ async def _watch_driver(ses: Session, watch_phases, serve_task):
         h = ses.handler
         if serve_task.done():
             return
-    for wp in watch_phases:
-        # wait for the watch phase
+
+    async def wait_watching() -> bool:
         while not h.watcher.busy_watching.is_set():
             if serve_task.done() or h.stop_event.is_set():
-                return
+                return False
             await ses.gate("idle:wait_watch")
+        # let the director settle (reporting, scheduled callbacks)
+        await ses.gate("idle:settle")
+        rcs = [e["rc"] for e in ses.trace if e["ev"] == "phase_end"]
+        ses.watch_points.append(
+            {"state": ses.last_state, "disk": ses.world.snapshot(), "rc": rcs[-1] if rcs else -1}
+        )
+        return True
+
+    for i, wp in enumerate(watch_phases):
+        if not await wait_watching():
+            return
         ses.phase += 1
-        ses.emit("watch_begin", disk=_disk_event(ses.world.snapshot()))
+        for hook in list(ses.watch_hooks):
+            hook(ses, i, h.db)
+        ses.emit("watch_begin", phase=i)
         for edit in wp.get("edits", []):
             apply_edit(ses.world, ses.project, edit, ses)
             if wp.get("settle_each", True):
@@ -977,10 +1008,11 @@ async def _watch_driver(ses: Session, watch_phases, serve_task):
                 await ses.gate("idle:settle")
         await ses.gate("idle:settle")
         await ses.gate("idle:settle")
-        ses.emit("rebuild", updated=sorted(str(p) for p in h.watcher.updated), deleted=sorted(str(p) for p in h.watcher.deleted), disk=_disk_event(ses.world.snapshot()))
+        ses.emit("rebuild", updated=sorted(str(p) for p in h.watcher.updated), deleted=sorted(str(p) for p in h.watcher.deleted))
         await h.start_build_phase()
-    while not h.watcher.busy_watching.is_set():
-        if serve_task.done() or h.stop_event.is_set():
-            return
-        await ses.gate("idle:wait_watch")
+        # the build phase has begun when busy_watching is cleared
+        while h.watcher.busy_watching.is_set() and not serve_task.done():
+            await ses.gate("idle:wait_build")
+    if not await wait_watching():
+        return
     await h.shutdown()
